@@ -95,8 +95,12 @@ class Lane(LaneBase):
         nontrivial = False
         for op in case['ops']:
             lines.append(impl.op_line('h', op))
+            asks_against_time = against_time(op)
+            before = impl.snapshot(g) if asks_against_time else None
             r = impl.apply_op(g, op)
             out.append(r)
+            if asks_against_time and r != 'ok' and not oracle and impl.snapshot(g) != before:
+                oracle.append(f'{op[0]} was asked for a directed edge against time, refused it ({r[4:]}) and changed the graph')
             if r == 'err ValueError':
                 tags.add(op[0] + ':ValueError')
                 nontrivial = True
